@@ -89,4 +89,10 @@ theorem volume_line_sets (P : List Nat) : (P.mergeSort natLe).Perm P := List.mer
 /-- the fuel the file reader uses (number of words + 5) is enough -/
 theorem reader_fuel_enough (ws : List String) : 5 ≤ ws.length + 5 := by omega
 
+/-- **a GEOMCOMP line is read back exactly**: name, declared count = number of volumes, the volumes in order, no
+complaint — for every composition name and every list of volume numbers -/
+theorem geomcomp_line_roundtrip (name : String) (ids : List Nat) :
+    gcLine name (toString ids.length) (ids.map toString) = (some (name, ids.length, ids), []) := by
+  simp only [gcLine, WR.natItems_ids, WR.toNat_toString]
+
 end T4V.C08
